@@ -41,7 +41,7 @@ impl MqttSink {
     #[inline]
     /// Check if sink is ready
     pub fn is_ready(&self) -> bool {
-        if self.0.is_closed() {
+        if self.0.is_sink_closed() {
             false
         } else {
             self.0.is_ready()
@@ -58,7 +58,7 @@ impl MqttSink {
     ///
     /// Result indicates if connection is alive
     pub fn ready(&self) -> impl Future<Output = bool> {
-        if self.0.is_closed() {
+        if self.0.is_sink_closed() {
             Either::Left(ready(false))
         } else {
             self.0.wait_readiness().map_or_else(
@@ -278,7 +278,7 @@ impl PublishBuilder {
     #[inline]
     /// Send publish packet with `QoS 0`
     pub fn send_at_most_once(mut self, payload: Bytes) -> Result<(), SendPacketError> {
-        if self.shared.is_closed() {
+        if self.shared.is_sink_closed() {
             log::error!("Mqtt sink is disconnected");
             Err(SendPacketError::Disconnected)
         } else {
@@ -296,7 +296,7 @@ impl PublishBuilder {
         mut self,
         size: u32,
     ) -> Result<StreamingPayload, SendPacketError> {
-        if self.shared.is_closed() {
+        if self.shared.is_sink_closed() {
             log::error!("Mqtt sink is disconnected");
             Err(SendPacketError::Disconnected)
         } else {
@@ -322,7 +322,7 @@ impl PublishBuilder {
         mut self,
         payload: Bytes,
     ) -> impl Future<Output = Result<codec::PublishAck, SendPacketError>> {
-        if self.shared.is_closed() {
+        if self.shared.is_sink_closed() {
             Either::Right(Ready::Err(SendPacketError::Disconnected))
         } else {
             self.packet.qos = QoS::AtLeastOnce;
@@ -331,7 +331,7 @@ impl PublishBuilder {
             // handle client receive maximum, send window is checked
             // at the time packet gets encoded
             Either::Left(async move {
-                if self.shared.is_closed() {
+                if self.shared.is_sink_closed() {
                     return Err(SendPacketError::Disconnected);
                 }
                 if let Some(rx) = self.shared.wait_readiness() {
@@ -351,7 +351,7 @@ impl PublishBuilder {
         mut self,
         payload: Bytes,
     ) -> Result<(), SendPacketError> {
-        if self.shared.is_closed() {
+        if self.shared.is_sink_closed() {
             Err(SendPacketError::Disconnected)
         } else {
             // check readiness
@@ -385,7 +385,7 @@ impl PublishBuilder {
             inprocess: Cell::new(false),
         };
 
-        if self.shared.is_closed() {
+        if self.shared.is_sink_closed() {
             (Either::Right(Ready::Err(SendPacketError::Disconnected)), stream)
         } else {
             self.packet.qos = QoS::AtLeastOnce;
@@ -394,7 +394,7 @@ impl PublishBuilder {
             // handle client receive maximum, send window is checked
             // at the time packet gets encoded
             let fut = Either::Left(async move {
-                if self.shared.is_closed() {
+                if self.shared.is_sink_closed() {
                     return Err(SendPacketError::Disconnected);
                 }
                 if let Some(rx) = self.shared.wait_readiness() {
@@ -449,7 +449,7 @@ impl PublishBuilder {
         mut self,
         payload: Bytes,
     ) -> impl Future<Output = Result<PublishReceived, SendPacketError>> {
-        if self.shared.is_closed() {
+        if self.shared.is_sink_closed() {
             Either::Right(Ready::Err(SendPacketError::Disconnected))
         } else {
             self.packet.qos = codec::QoS::ExactlyOnce;
@@ -651,7 +651,7 @@ impl SubscribeBuilder {
         let shared = self.shared;
         let mut packet = self.packet;
 
-        if shared.is_closed() {
+        if shared.is_sink_closed() {
             Err(SendPacketError::Disconnected)
         } else {
             // handle client receive maximum
@@ -737,7 +737,7 @@ impl UnsubscribeBuilder {
         let shared = self.shared;
         let mut packet = self.packet;
 
-        if shared.is_closed() {
+        if shared.is_sink_closed() {
             Err(SendPacketError::Disconnected)
         } else {
             // handle client receive maximum
